@@ -12,7 +12,9 @@ SUMMARY = re.compile(r"^(Found \d+ errors? in \d+ files? \(.*\)|Success: no issu
 
 
 def split_lines(out: str) -> list[str]:
-    return [ln for ln in out.splitlines() if ln.strip()]
+    # "\n" only: a message may echo control characters of the source (\x0b, \x0c, \x1c-\x1e, \x85, \u2028) that
+    # str.splitlines() would treat as line boundaries
+    return [ln.rstrip("\r") for ln in out.split("\n") if ln.strip()]
 
 
 def parse(out: str) -> list[dict[str, Any]]:
